@@ -81,8 +81,14 @@ type (
 		errored   bool
 		startline int
 		startcol  int
-		line      int
-		col       int
+
+		line int
+		col  int
+
+		// where the verbatim block the lexer is in was opened (for the error of a
+		// block that is never closed)
+		verbatimLine int
+		verbatimCol  int
 
 		inVerbatim   bool
 		verbatimName string
@@ -260,6 +266,7 @@ func (l *lexer) run() {
 					l.emit(TokenHTML)
 				}
 				l.inVerbatim = true
+				l.verbatimLine, l.verbatimCol = l.line, l.col
 				w := loc[1]
 				l.pos += w
 				l.col += w
@@ -330,6 +337,9 @@ func (l *lexer) run() {
 	}
 
 	if l.inVerbatim {
+		// (reported where the block was opened, like an unclosed comment or string;
+		// the current position lies behind the last character of the source)
+		l.startline, l.startcol = l.verbatimLine, l.verbatimCol
 		l.errorf("verbatim-tag not closed, got EOF.")
 	}
 }
